@@ -1,18 +1,154 @@
 /-
-C09 — property theorems (only).  "Reverting to a state snapshot restores exactly the snapshotted state."
-All statements are about the model in YouVerif/C09/Model.lean (tied to /repo by the correspondence harness).
+C09 — property theorems (only).
+"After any sequence of state modifications, reverting to an earlier snapshot makes every observable of the
+state equal to what it was when the snapshot was taken, for arbitrarily nested snapshots and for snapshots
+taken in any transaction of a block.  Reverting a valid snapshot never fails."
+
+All statements are about the executable model of `core/state.StateDB` in YouVerif/C09/Model.lean (two
+journals, two revision lists, Finalise, IntermediateRoot), which the correspondence harness go/cmd/c09 compares
+with the real StateDB after every operation.  Vocabulary:
+  `run s ops = some s'`  the API calls `ops` executed from `s` without a Go panic
+  `Guarded s ops`        every call meets its guard `OpOK` (ProofsMain.lean) in the state it is made in:
+                           - no zero-value AddBalance to the RIPEMD address 0x03 (known finding F-C09e),
+                           - CreateValidator not over a live object flagged deleted,
+                           - UpdateValidator / RemoveValidator / UpdateDelegation only when the statistics hold at
+                             least the stake and token they subtract (Go subtracts only when `Cmp >= 0`),
+                           - `Prepare` only between transactions (it is not journalled, by design)
+  `snapshotOf s`         the state after `Snapshot()`; the id it returns is `s.nextId`
+  `s.liveIds`            ids in `validRevisions`
+The conclusions are equalities of the WHOLE account-side data `State.a` (objects with balance, nonce, code,
+all three storage layers, self-destruct/deleted flags, delegation data; refund; logs; preimages; pending and
+dirty sets; account-trie content) and validator-side data `State.v` (validators with all modelled fields,
+index, statistics, withdraw queue, dirty set, validator-trie content), and of both journals and revision lists.
 -/
-import YouVerif.C09.Model
+import YouVerif.C09.ProofsGuard
 namespace YouVerif.C09.Props
 open YouVerif.C09
 
-/-- F-C09a witness: tx1 `Snapshot; Finalise`, tx2 `Snapshot a; Snapshot b; Revert b; Revert a`. -/
+/-- states reachable from a fresh StateDB by guarded API calls (any number of transactions, any nesting) -/
+def Reachable (s : State) : Prop := ∃ ops, Guarded init ops ∧ run init ops = some s
+
+theorem reachable_inv {s : State} (h : Reachable s) : ∃ ga gv, Inv s ga gv := by
+  obtain ⟨ops, hg, hr⟩ := h
+  obtain ⟨ga, gv, hI, _⟩ := run_inv init_inv hg hr
+  exact ⟨ga, gv, hI⟩
+
+/-- **Revert restores.**  Take a snapshot in any reachable state `s₀` (any transaction of a block, any call
+depth), run any guarded calls — mutations of both kinds, further snapshots, reverts of inner snapshots —
+and, provided the id is still live, revert to it: the revert succeeds and the account data, the validator
+data, both journals and both revision lists are exactly those of `s₀`. -/
+theorem revert_restores {s₀ s₂ : State} {ops : List Op} (h₀ : Reachable s₀)
+    (hg : Guarded (snapshotOf s₀) ops) (hr : run (snapshotOf s₀) ops = some s₂) (hlive : s₀.nextId ∈ s₂.liveIds) :
+    ∃ s₃, step s₂ (.revert s₀.nextId) = some s₃ ∧ s₃.a = s₀.a ∧ s₃.aj = s₀.aj ∧ s₃.v = s₀.v ∧ s₃.vj = s₀.vj ∧
+      s₃.revs = s₀.revs ∧ s₃.valRevs = s₀.valRevs := by
+  obtain ⟨ga, gv, hI⟩ := reachable_inv h₀
+  exact revert_of_inv hI hg hr hlive
+
+/-- **Resulting roots.**  Whatever is computed from the reverted state afterwards equals what would have been
+computed from the snapshotted state: in particular the trie contents `IntermediateRoot` produces (the roots
+are hashes of these), for either value of `deleteEmptyObjects`, and any other observable `f`. -/
+theorem revert_restores_roots {s₀ s₂ : State} {ops : List Op} (h₀ : Reachable s₀)
+    (hg : Guarded (snapshotOf s₀) ops) (hr : run (snapshotOf s₀) ops = some s₂) (hlive : s₀.nextId ∈ s₂.liveIds) :
+    ∃ s₃, step s₂ (.revert s₀.nextId) = some s₃ ∧
+      (∀ del, (intermediateRoot del s₃).a = (intermediateRoot del s₀).a ∧ (intermediateRoot del s₃).v = (intermediateRoot del s₀).v) ∧
+      (∀ {β : Type} (f : AccData → List AccEntry → ValData → List ValEntry → β), f s₃.a s₃.aj s₃.v s₃.vj = f s₀.a s₀.aj s₀.v s₀.vj) := by
+  obtain ⟨s₃, hs, ha, haj, hv, hvj, _, _⟩ := revert_restores h₀ hg hr hlive
+  refine ⟨s₃, hs, fun del => ?_, fun f => by rw [ha, haj, hv, hvj]⟩
+  have hd : s₃.accDirty = s₀.accDirty := by funext a; simp only [State.accDirty, ha, haj]
+  simp only [intermediateRoot, finalise, hd, ha, hv, hvj, and_self]
+
+/-- **Reverting a valid snapshot never fails**: in every reachable state, for every id in `validRevisions`,
+`RevertToSnapshot(id)` does not panic. -/
+theorem revert_never_fails {s : State} (h : Reachable s) {id : Nat} (hid : id ∈ s.liveIds) :
+    (step s (.revert id)).isSome = true := by
+  obtain ⟨ga, gv, hI⟩ := reachable_inv h
+  exact revert_isSome_of_inv hI hid
+
+/-- **Nesting.**  Outer snapshot in `s₀`, calls `ops₁`, inner snapshot in `s₁`, calls `ops₂` reaching `s₂`, both
+ids still live.  Then (a) reverting the inner one restores `s₁`, after which reverting the outer one restores
+`s₀`; and (b) reverting the outer one directly (the inner frame returned normally) restores `s₀` as well. -/
+theorem nested {s₀ s₁ s₂ : State} {ops₁ ops₂ : List Op} (h₀ : Reachable s₀)
+    (g₁ : Guarded (snapshotOf s₀) ops₁) (r₁ : run (snapshotOf s₀) ops₁ = some s₁)
+    (g₂ : Guarded (snapshotOf s₁) ops₂) (r₂ : run (snapshotOf s₁) ops₂ = some s₂)
+    (houter : s₀.nextId ∈ s₂.liveIds) (hinner : s₁.nextId ∈ s₂.liveIds) :
+    (∃ s₃ s₄, step s₂ (.revert s₁.nextId) = some s₃ ∧ s₃.a = s₁.a ∧ s₃.v = s₁.v ∧
+        step s₃ (.revert s₀.nextId) = some s₄ ∧ s₄.a = s₀.a ∧ s₄.v = s₀.v) ∧
+    (∃ s₄, step s₂ (.revert s₀.nextId) = some s₄ ∧ s₄.a = s₀.a ∧ s₄.v = s₀.v) := by
+  obtain ⟨ga, gv, hI⟩ := reachable_inv h₀
+  obtain ⟨ga₁, gv₁, hI₁, _, _, hle⟩ := run_inv (snapshot_inv hI) g₁ r₁
+  have hle' : s₀.nextId + 1 ≤ s₁.nextId := hle
+  -- the whole trace from the outer snapshot to s₂
+  have gsnap : Guarded s₁ (.snapshot :: ops₂) :=
+    ⟨trivial, fun s' hs' => by rw [step_snapshot] at hs'; simp only [Option.some.injEq] at hs'; subst hs'; exact g₂⟩
+  have rsnap : run s₁ (.snapshot :: ops₂) = some s₂ := by simp only [run, step_snapshot]; exact r₂
+  have gall : Guarded (snapshotOf s₀) (ops₁ ++ .snapshot :: ops₂) := Guarded.append r₁ g₁ gsnap
+  have rall : run (snapshotOf s₀) (ops₁ ++ .snapshot :: ops₂) = some s₂ := by rw [run_append r₁]; exact rsnap
+  refine ⟨?_, ?_⟩
+  · obtain ⟨s₃, hs₃, ha, haj, hv, hvj, hrevs, hvrevs⟩ := revert_of_inv hI₁ g₂ r₂ hinner
+    -- the outer id was live in s₁, hence is live in s₃
+    have hlive₁ : s₀.nextId ∈ s₁.liveIds := by
+      have := live_mono (snapshot_inv hI₁) g₂ r₂ houter (by show s₀.nextId < s₁.nextId + 1; omega)
+      simp only [State.liveIds, snapshotOf, List.map_cons, List.mem_cons] at this
+      rcases this with h | h
+      · omega
+      · exact h
+    have hlive₃ : s₀.nextId ∈ s₃.liveIds := by simp only [State.liveIds, hrevs]; exact hlive₁
+    have grev : Guarded s₂ [.revert s₁.nextId] := ⟨trivial, fun _ _ => trivial⟩
+    have rrev : run s₂ [.revert s₁.nextId] = some s₃ := by simp only [run, hs₃]
+    obtain ⟨s₄, hs₄, ha₄, _, hv₄, _⟩ :=
+      revert_of_inv hI (Guarded.append rall gall grev) (by rw [run_append rall]; exact rrev) hlive₃
+    exact ⟨s₃, s₄, hs₃, ha, hv, hs₄, ha₄, hv₄⟩
+  · obtain ⟨s₄, hs₄, ha₄, _, hv₄, _⟩ := revert_of_inv hI gall rall houter
+    exact ⟨s₄, hs₄, ha₄, hv₄⟩
+
+/-! ### The defect that was repaired (F-C09a) -/
+
+/-- witness: tx1 `Snapshot; Finalise`, tx2 `Snapshot a; Snapshot b; Revert b; Revert a` -/
 def nestedAfterFinalise : List Op := [.snapshot, .finalise true, .snapshot, .snapshot, .revert 2, .revert 1]
 
-/-- On the code BEFORE the repair the witness panics (`revision id 1 cannot be reverted`) … -/
+/-- On the code BEFORE the repair (`finaliseLegacy`, `revertSnapLegacy`: `valValidRevisions` not reset, both
+lists cut at the account list's index) the witness panics `revision id 1 cannot be reverted`, although id 1
+is in `validRevisions`: `revert_never_fails` was false of that code. -/
 theorem legacy_nested_revert_after_finalise_crashes : (runLegacy init nestedAfterFinalise).isNone = true := by decide
 
-/-- … on the repaired code it does not. -/
 theorem nested_revert_after_finalise_ok : (run init nestedAfterFinalise).isSome = true := by decide
+
+/-! ### The guard that cannot be dropped (open finding F-C09e) -/
+
+/-- an empty account at the RIPEMD address exists (created with `deleteEmptyObjects = false`); a snapshot is
+taken, the address is touched by a zero-value `AddBalance`, the snapshot is reverted -/
+def ripemdTouch : List Op :=
+  [.acc (.setNonce ripemd 0), .root false, .snapshot, .acc (.addBalance ripemd 0), .revert 0]
+def ripemdNoTouch : List Op := [.acc (.setNonce ripemd 0), .root false, .snapshot, .revert 0]
+
+/-- The dirty counter of the address survives the revert (`journal.dirty` has no journal entry), so the next
+`Finalise(true)` deletes the account although the touch was reverted; without the touch it stays. -/
+theorem ripemd_touch_survives_revert :
+    ((run init ripemdTouch).map fun s => (s.accDirty ripemd, ((finalise true s).a.objs ripemd).map (·.deleted))) = some (1, some true) ∧
+    ((run init ripemdNoTouch).map fun s => (s.accDirty ripemd, ((finalise true s).a.objs ripemd).map (·.deleted))) = some (0, some false) := by
+  decide
+
+/-! ### The hypotheses are satisfiable (tests on literals, not theorems) -/
+
+/-- a two-transaction trace with validators, accounts, a withdraw record, a delegation and nested snapshots -/
+def sampleTrace : List Op :=
+  [ .val (.create 1000 { role := 1, status := 1, token := 50, stake := 50, selfToken := 50, selfStake := 50, misc := 1000 }),
+    .acc (.addBalance 256 7), .snapshot, .finalise true,
+    .prepare 1 1, .snapshot,                                            -- id 1 (outer, second transaction)
+    .acc (.setState 256 1 9), .val (.update 1000 { role := 2, status := 0, token := 40, stake := 40, selfToken := 50, selfStake := 50, misc := 1001 }),
+    .snapshot,                                                          -- id 2 (inner)
+    .val (.remove 1000), .val (.addWithdraw ⟨256, 0, 5⟩), .acc (.suicide 256), .deleg 256 1000 5,
+    .revert 2, .val (.removeWithdraws []), .acc (.addLog 3) ]
+
+example : guardedB init sampleTrace = true := by decide
+example : ((run init sampleTrace).map (·.liveIds)) = some [1] := by decide
+/-- the guarded prefix reaches a state; `revert_restores`/`nested` apply to it (id 1 is live at the end) -/
+example : ∃ s, Reachable s ∧ 1 ∈ s.liveIds := by
+  have hg : Guarded init sampleTrace := guardedB_sound (by decide)
+  have hs : (run init sampleTrace).isSome = true := by decide
+  obtain ⟨s, hs'⟩ := Option.isSome_iff_exists.1 hs
+  refine ⟨s, ⟨sampleTrace, hg, hs'⟩, ?_⟩
+  have : ((run init sampleTrace).map (·.liveIds)) = some [1] := by decide
+  rw [hs'] at this; simp only [Option.map_some, Option.some.injEq] at this; rw [this]; simp
 
 end YouVerif.C09.Props
